@@ -75,7 +75,7 @@ def gen_key(rnd, alpha, stock):
 
 def gen_history(rnd, tier):
     alpha = gen_alphabet(rnd)
-    n = rnd.choice([3, 8, 20, 40]) if tier == "quick" else rnd.choice([5, 20, 60, 150])
+    n = rnd.choice([3, 8, 20, 40]) if tier == "quick" else rnd.choice([5, 20, 40, 80])
     outside = [c for c in "XYZ漢字ー" if c not in alpha]
     ops, keys = [], []
     for _ in range(n):
@@ -193,7 +193,7 @@ def run(tier, seed):
     if not okh:
         res.tie_broken("harness build failed", hlog[-1500:])
         return res.finish({"obligations": info["obligations"], "discharged": info["discharged"], "checker_cmd": "make", "trusted_base": TRUSTED_COMMON}, [])
-    nh = 80 if tier == "quick" else 800
+    nh = 80 if tier == "quick" else 240
     hs = [gen_history(rnd, tier) for _ in range(nh)]
     # corpus first: the repository's own Japanese test trie, which forces a relocation
     hs.insert(0, {"op": "trie_history", "alphabet": "じっしつてきになさい", "ops": [{"ins": k, "dump": True} for k in
